@@ -6,7 +6,9 @@ THEOREMS = ["PcVerif.Props.C20.order_pinned", "PcVerif.Props.C20.markers_pinned"
             "PcVerif.Props.C20.detectScc_total", "PcVerif.Props.C20.detectOne_total",
             "PcVerif.Props.C20.detect_total", "PcVerif.Props.C20.detect_empty_raises",
             "PcVerif.Props.C20.detect_first_accepting", "PcVerif.Props.C20.detect_none_iff",
-            "PcVerif.Props.C20.detect_own_srt", "PcVerif.Props.C20.detect_own_vtt", "PcVerif.Props.C20.detect_own_mdvd", "PcVerif.Props.C20.detect_own_scc"]
+            "PcVerif.Props.C20.detect_own_srt", "PcVerif.Props.C20.detect_own_vtt", "PcVerif.Props.C20.detect_own_mdvd", "PcVerif.Props.C20.detect_own_scc",
+            "PcVerif.Props.C20.own_srt_detected_and_read", "PcVerif.Props.C20.own_vtt_detected_and_read",
+            "PcVerif.Props.C20.own_mdvd_detected_and_read", "PcVerif.Props.C20.own_scc_detected_and_read"]
 
 DOCUMENTED = ["dfxp", "microdvd", "webvtt", "sami", "srt", "scc"]
 SYMS = ["0", "1", "\n", "\r", "{", "}", "-", ">", "W", "<", "s", "t", "/", " ",
